@@ -9,6 +9,8 @@
     mode  "construct" | "deser" | "nested"
     msg   str(exception) of the real run (absent when nothing was raised)
     doc   (deser cases) the document values as handed to Deserializer, for the phase-one model
+    mapper  [[field, document key] …] when a key-renaming mapper is in effect (doc is then keyed by
+            document keys)
     order   field names in class-definition order (the order construct_fields_map visits them)
     scratch [[field, [inner Field `_name`s …]] …] observed just before the call
     alnum the non-ASCII characters of msg for which Python's str.isalnum() holds (oracle answers)
@@ -121,12 +123,19 @@ def run (j : Json) : Except String Json := do
   let ff ← optBool j "ff" true
   let mode ← (← j.getObjVal? "mode").getStr?
   let msg ← optStr j "msg"
-  let doc ← match optField j "doc" with | none => pure [] | some x => kwOfJson x
+  let rawDoc ← match optField j "doc" with | none => pure [] | some x => kwOfJson x
+  let mapper : List (String × String) ← match optField j "mapper" with
+    | none => pure []
+    | some x => (← x.getArr?).toList.mapM fun kv => do
+      let p ← kv.getArr?
+      pure ((← p[0]!.getStr?), (← p[1]!.getStr?))
   let alnum := ((← optStr j "alnum").getD "").toList
   let order ← strList j "order"
   let scratch ← scratchOfJson j
   match decl with
   | .struct c fields _ =>
+    -- the document as handed to the real code (document keys), re-keyed through the mapper
+    let doc := if mapper.isEmpty then rawDoc else docOfMapped mapper rawDoc fields
     let cls := c.name.toList
     let invalid := invalidFields O c kw fields
     let ss := sites O c kw fields
